@@ -132,7 +132,9 @@ impl<'a> io::Read for ScriptRead<'a> {
     fn read(&mut self, buf: &mut [u8]) -> io::Result<usize> {
         self.reads += 1;
         if let Some(k) = self.fail_next.take() {
-            self.error_seen_this_call = true;
+            // an interrupted read may be retried by the client or be treated as an error
+            // (what it must not do - wait for new readiness - only shows under E2, scenario death)
+            self.error_seen_this_call = k != 1;
             let kind = match k {
                 0 => io::ErrorKind::ConnectionReset,
                 1 => io::ErrorKind::Interrupted,
